@@ -63,6 +63,10 @@ def operand_of_kind(draw, G, S, kind):
 def arith_tree(draw, G, S, n):
     """Random arithmetic expression over n square leaves on S."""
     if n == 1:
+        shared = getattr(G, 'shared_composites', [])
+        if shared and draw(st.integers(0, 2)) == 0:
+            # the SAME composite object used again (operand reuse): building one expression must not modify it
+            return draw(st.sampled_from(shared))
         kind = draw(st.sampled_from(KINDS + ['plain', 'shared']))
         if kind == 'shared':
             r, _ = gen.invertible(draw, G, S)
@@ -116,8 +120,16 @@ def tree_case(draw, mode):
     G = gen.GenCtx(mode, cap=16)
     S = draw(gen.structure(mode, cap=12))
     n = draw(st.integers(2, 6))
+    G.shared_composites = []
+    if draw(st.integers(0, 2)) == 0:
+        for _ in range(draw(st.integers(1, 2))):
+            k = draw(st.sampled_from(['composition', 'sum']))
+            r = operand_of_kind(draw, G, S, k)
+            r['via'] = 'matmul' if k == 'composition' else 'plus'
+            G.shared_composites.append(G.define(r))
+        n = max(n, 3)
     expr = arith_tree(draw, G, S, n)
-    return {'mode': 'well', 'defs': G.defs, 'expr': expr, 'nleaves': n,
+    return {'mode': 'well', 'defs': G.defs, 'expr': expr, 'nleaves': n, 'shared': [r_['i'] for r_ in G.shared_composites],
             'probe': draw(st.lists(st.integers(0, 1000), min_size=8, max_size=8))}
 
 
@@ -249,12 +261,22 @@ def check(recipe, mode):
         X.check_structures(op, den, 'structure')
         X.compare_with_den(op, den, recipe['probe'], 'value')
         kinds = X.kinds_in(recipe['expr'], defs)
+        if recipe.get('shared'):
+            # operands used several times still denote what they denoted when they were built
+            b2 = ops.Builder(defs)
+            b2.build(recipe['expr'])
+            for i in recipe['shared']:
+                if i in b2.built:
+                    X.compare_with_den(b2.built[i], ops.denote({'k': 'ref', 'i': i}, defs, {}), recipe['probe'],
+                                       'shared-operand-modified', max_basis=6)
         classes = ['node:' + k for k in kinds if k in ('compose', 'add', 'sub', 'scale', 'neg', 'pos', 'I')]
         both = _has_composite_both_sides(recipe['expr'], defs)
         if both:
             classes.append('composite_both_sides')
         if recipe['expr']['k'] == 'compose' and len(recipe['expr']['ops']) == 2 and defs:
             classes.append('shared_inverse_shortcut')
+        if recipe.get('shared'):
+            classes.append('reused_composite_operand')
         return {'nontrivial': recipe['nleaves'] >= 3 and both, 'classes': classes}
     b = ops.Builder(defs)
     if recipe['mode'] == 'ill':
